@@ -1,12 +1,16 @@
 #!/bin/sh
 # usage: tryseed.sh <patch.diff> <property> [budget] [more properties...]
 # Applies a seeded patch to /repo, runs the quick check(s), and undoes the patch.
+# Evidence files are saved before and restored afterwards: evidence must only ever
+# describe runs on the unchanged tree.
 patch=$1; shift; prop=$1; shift; budget=${1:-20}; [ $# -gt 0 ] && shift
 cd /verif
 if ! git -C /repo apply --check "$patch" 2>/dev/null; then echo "PATCH DOES NOT APPLY"; exit 3; fi
 git -C /repo apply "$patch"
 for p in $prop "$@"; do
-  out=$(./bin/check $p --budget $budget 2>&1); code=$?
+  [ -f evidence/$p.json ] && cp evidence/$p.json /tmp/tryseed-evidence-$p.json
+  out=$(./bin/check $p --budget $budget $TRYSEED_ARGS 2>&1); code=$?
+  [ -f /tmp/tryseed-evidence-$p.json ] && mv /tmp/tryseed-evidence-$p.json evidence/$p.json
   echo "== $p exit=$code"; echo "$out" | head -6 | cut -c1-260; echo "$out" | tail -1 | cut -c1-200
 done
 git -C /repo checkout -- . ; git -C /repo status --short | head -3
